@@ -354,6 +354,22 @@ func (t *c20Tr) cond(e ast.Expr) (string, error) {
 			return "(g_compiled g)", nil
 		}
 	case *ast.CallExpr:
+		// contains(g.controlEdges[a], b) with a private helper that is a membership scan: the loop
+		// for i := range g.F[a] { if g.F[a][i] == b { … } } extracted into a function
+		if id, ok := x.Fun.(*ast.Ident); ok && len(x.Args) == 2 && c20ContainsHelpers[id.Name] {
+			if f, k, ok := t.recvIndex(x.Args[0]); ok && (f == "controlEdges" || f == "dataEdges") {
+				ks, ok1 := t.str(k)
+				bs, ok2 := t.str(x.Args[1])
+				if ok1 && ok2 {
+					proj := "g_ctrl"
+					if f == "dataEdges" {
+						proj = "g_data"
+					}
+					t.note("%s(g.%s[…], …): the private helper %s is a membership scan", id.Name, f, id.Name)
+					return "(pmem " + ks + " " + bs + " (" + proj + " g))", nil
+				}
+			}
+		}
 		if id, ok := x.Fun.(*ast.Ident); ok && len(x.Args) == 1 && t.isRecvField(x.Args[0], "cmp") {
 			switch id.Name {
 			case "isChain":
@@ -1074,12 +1090,77 @@ func c20Notes(b *strings.Builder, t *c20Tr) {
 	b.WriteString("*)\n")
 }
 
+// c20ContainsHelpers: the package-level functions of graph.go that are a membership scan over a list of keys,
+//
+//	func h(keys []string, key string) bool { for _, k := range keys { if k == key { return true } }; return false }
+//
+// (or the index form for i := range keys { if keys[i] == key … }); a call of one stands for the loop it was extracted from
+var c20ContainsHelpers = map[string]bool{}
+
+func c20FindContainsHelpers(f *ast.File) map[string]bool {
+	out := map[string]bool{}
+	for _, d := range f.Decls {
+		fn, ok := d.(*ast.FuncDecl)
+		if !ok || fn.Recv != nil || fn.Body == nil || fn.Type.TypeParams != nil || len(fn.Body.List) != 2 {
+			continue
+		}
+		if c20ParamNames(fn) == "" || fn.Type.Results == nil || len(fn.Type.Results.List) != 1 || c20Txt(fn.Type.Results.List[0].Type) != "bool" {
+			continue
+		}
+		var ps []string
+		var pt []string
+		for _, fl := range fn.Type.Params.List {
+			for _, n := range fl.Names {
+				ps = append(ps, n.Name)
+				pt = append(pt, c20Txt(fl.Type))
+			}
+		}
+		if len(ps) != 2 || pt[0] != "[]string" || pt[1] != "string" {
+			continue
+		}
+		rg, ok1 := fn.Body.List[0].(*ast.RangeStmt)
+		ret, ok2 := fn.Body.List[1].(*ast.ReturnStmt)
+		if !ok1 || !ok2 || len(ret.Results) != 1 || c20Txt(ret.Results[0]) != "false" || c20Txt(rg.X) != ps[0] || len(rg.Body.List) != 1 {
+			continue
+		}
+		is, ok := rg.Body.List[0].(*ast.IfStmt)
+		if !ok || is.Init != nil || is.Else != nil || len(is.Body.List) != 1 {
+			continue
+		}
+		r2, ok := is.Body.List[0].(*ast.ReturnStmt)
+		if !ok || len(r2.Results) != 1 || c20Txt(r2.Results[0]) != "true" {
+			continue
+		}
+		be, ok := is.Cond.(*ast.BinaryExpr)
+		if !ok || be.Op != token.EQL {
+			continue
+		}
+		var elem string
+		kv, _ := rg.Key.(*ast.Ident)
+		vv, _ := rg.Value.(*ast.Ident)
+		switch {
+		case vv != nil && vv.Name != "_" && (kv == nil || kv.Name == "_"):
+			elem = vv.Name
+		case kv != nil && kv.Name != "_" && rg.Value == nil:
+			elem = ps[0] + "[" + kv.Name + "]"
+		default:
+			continue
+		}
+		l, r := c20Txt(be.X), c20Txt(be.Y)
+		if (l == elem && r == ps[1]) || (r == elem && l == ps[1]) {
+			out[fn.Name.Name] = true
+		}
+	}
+	return out
+}
+
 func c20ExtractGraph(repo string) (string, string, error) {
 	fset := token.NewFileSet()
 	f, err := c20ParseGo(fset, repo, "compose", "graph.go")
 	if err != nil {
 		return "", "", err
 	}
+	c20ContainsHelpers = c20FindContainsHelpers(f)
 	// package level error variables: var ErrX = errors.New("…")
 	errVars := map[string]string{}
 	for _, d := range f.Decls {
@@ -1533,7 +1614,8 @@ func c20CompileSpecial(info *c20CompileInfo) func(t *c20Tr, l []ast.Stmt, m c20M
 				return fail("loop over g.toValidateMap not recognised")
 			case t.recv + ".nodes":
 				// for key, node := range g.nodes { if node.inputType() == nil || node.outputType() == nil { return nil, E } }
-				if len(x.Body.List) == 1 && v != "" {
+				//   (F-C20h) … if node.cr != nil && node.cr.isPassthrough && node.cr.genericHelper == nil { return nil, E } }
+				if (len(x.Body.List) == 1 || len(x.Body.List) == 2) && v != "" {
 					if is, ok := x.Body.List[0].(*ast.IfStmt); ok && is.Init == nil && is.Else == nil && len(is.Body.List) == 1 &&
 						c20Squash(types.ExprString(is.Cond)) == v+".inputType()==nil||"+v+".outputType()==nil" {
 						if ret, ok := is.Body.List[0].(*ast.ReturnStmt); ok {
@@ -1541,8 +1623,29 @@ func c20CompileSpecial(info *c20CompileInfo) func(t *c20Tr, l []ast.Stmt, m c20M
 							if err != nil {
 								return "", false, err
 							}
-							r, err := rest()
-							return "if has_untyped g then " + re + "\n" + ind + "else " + r, true, err
+							keyedOK := len(x.Body.List) == 1
+							if !keyedOK {
+								// the same rejection for a pass-through node with an input AND an output key (both types are
+								// map[string]any, what passes through has none): the model has no keys, there a pass-through node
+								// without helper is one without input type — the test above
+								if is2, ok := x.Body.List[1].(*ast.IfStmt); ok && is2.Init == nil && is2.Else == nil && len(is2.Body.List) == 1 &&
+									c20Squash(types.ExprString(is2.Cond)) == v+".cr!=nil&&"+v+".cr.isPassthrough&&"+v+".cr.genericHelper==nil" {
+									if ret2, ok := is2.Body.List[0].(*ast.ReturnStmt); ok {
+										re2, err := m.ret(t, ret2)
+										if err != nil {
+											return "", false, err
+										}
+										if re2 == re {
+											keyedOK = true
+											t.note("if %s.cr != nil && %s.cr.isPassthrough && %s.cr.genericHelper == nil { same error }: a pass-through node with input and output key whose own type nothing inferred (keys are outside the model: without them this is the test before it)", v, v, v)
+										}
+									}
+								}
+							}
+							if keyedOK {
+								r, err := rest()
+								return "if has_untyped g then " + re + "\n" + ind + "else " + r, true, err
+							}
 						}
 					}
 				}
